@@ -402,15 +402,16 @@ def desugar_ne(m, prog):
         t["target"] = nb
 
 
-def inline_mir(prog, key, stop, maxdepth=4, _stack=(), max_blocks=6000, max_callee_blocks=None):
+def inline_mir(prog, key, stop, maxdepth=4, _stack=(), max_blocks=6000, max_callee_blocks=None, desugar=True):
     """Returns (mir dict, promoted list, inlined callee keys)."""
     fn = prog.fns[key]
     m = copy.deepcopy(fn["mir"])
     prom = list(copy.deepcopy(fn.get("promoted") or []))
     inlined = []
-    desugar_combinators(m, prog)
-    desugar_for_each(m, prog)
-    desugar_ne(m, prog)
+    if desugar:
+        desugar_combinators(m, prog)
+        desugar_for_each(m, prog)
+        desugar_ne(m, prog)
     # drop cleanup blocks' influence: keep them (ids must stay stable) but cut unwind edges
     for b in m["blocks"]:
         t = b["term"]
@@ -436,7 +437,7 @@ def inline_mir(prog, key, stop, maxdepth=4, _stack=(), max_blocks=6000, max_call
             continue
         if max_callee_blocks is not None and len(gf["mir"]["blocks"]) > max_callee_blocks and not c.get("synth"):
             continue
-        gm, gprom, ginl = inline_mir(prog, g, stop, maxdepth, _stack + (key,), max_blocks, max_callee_blocks)
+        gm, gprom, ginl = inline_mir(prog, g, stop, maxdepth, _stack + (key,), max_blocks, max_callee_blocks, desugar)
         if len(t["args"]) != gm["arg_count"]:
             continue
         off_l = len(m["locals"])
